@@ -33,7 +33,8 @@ RULE = ("(a) seeded naming designs: 13 declaration slots filled from a pool of V
         "designs (by text digest) that were fully checked.")
 ASSUMPTIONS = ["legality is judged by vcheck's rule set for the emitted VHDL subset (VHDL-93/2002); no reference analyser "
                "is available in the sandbox"]
-REQUIRE = {'quick': {'texts_checked': 800, 'naming_accepted': 200}, 'thorough': {'texts_checked': 10000, 'naming_accepted': 3000}}
+REQUIRE = {'quick': {'texts_checked': 800, 'naming_accepted': 200, 'array_element_selectors': 40},
+           'thorough': {'texts_checked': 10000, 'naming_accepted': 3000, 'array_element_selectors': 40}}
 
 VHDL_RESERVED = """abs access after alias all and architecture array assert attribute begin block body buffer bus case
  component configuration constant disconnect downto else elsif end entity exit file for function generate generic group
@@ -73,6 +74,14 @@ def gen_cases(tier, seed):
         cases.append({'k': 'body', 'gen': ('c03', 'c01', 'c04')[i % 3], 'seed': seed * 7919 + 31 + i})
     for i in range(120 if tier == 'quick' else 1500):
         cases.append({'k': 'sens', 'seed': seed * 7927 + i})
+    # selectors that are (slices of) elements of Array signals / variables: with..select, case
+    for ek in ('u', 's', 'bv'):
+        for how in ('select_with', 'match', 'stdselect'):
+            for ctx in ('conc', 'seq'):
+                for sel in ('const', 'rt', 'slice', 'rtslice', 'view'):
+                    if how == 'match' and ctx == 'conc':
+                        continue
+                    cases.append({'k': 'arrsel', 'ek': ek, 'how': how, 'ctx': ctx, 'sel': sel})
     return cases
 
 
@@ -446,8 +455,64 @@ def run_sens(case):
         unload(mod)
 
 
+_as = [0]
+
+
+def run_arrsel(case):
+    """an element of an Array object (constant / run-time index, slice, typed view) as selector of select_with / match / std.select"""
+    cnt = Counter()
+    ek, how, ctx, sel = case['ek'], case['how'], case['ctx'], case['sel']
+    _as[0] += 1
+    cname = f"AS{_as[0]}"
+    ET = {'u': 'Unsigned', 's': 'Signed', 'bv': 'BitVector'}[ek]
+    subj = {'const': 'mem[1]', 'rt': 'mem[self.i]', 'slice': 'mem[2][1:0]', 'rtslice': 'mem[self.i][2:1]',
+            'view': 'mem[self.i].bitvector' if ek != 'bv' else 'mem[self.i].unsigned'}[sel]
+    # kind of the selector expression in CoHDL: slices are BitVectors, views what they say, elements the element type
+    sk = 'bv' if sel in ('slice', 'rtslice') else ({'u': 'bv', 's': 'bv', 'bv': 'u'}[ek] if sel == 'view' else ek)
+    w = 2 if sel in ('slice', 'rtslice') else 3
+    def key(v):
+        if sk == 'bv':
+            return repr(format(v, f'0{w}b'))
+        if sk == 's':
+            return str(v - (1 << w) if v >> (w - 1) else v)
+        return str(v)
+    alts = {key(0): "Unsigned[4](1)", key(1): "Unsigned[4](2)", key(3): "self.x"}
+    L = [pg.HEADER, f"class {cname}(Entity):", "    clk = Port.input(Bit)", "    i = Port.input(Unsigned[2])", f"    d = Port.input({ET}[3])",
+         "    x = Port.input(Unsigned[4])", "    q = Port.output(Unsigned[4])", "    def architecture(self):",
+         f"        mem = Signal[Array[{ET}[3], 4]](name='mem')",
+         "        @std.sequential(std.Clock(self.clk))", "        def feed():", "            mem[self.i] <<= self.d"]
+    L += ["        @std.concurrent" if ctx == 'conc' else "        @std.sequential(std.Clock(self.clk))", "        def logic():"]
+    if how == 'select_with':
+        L.append(f"            self.q <<= cohdl.select_with({subj}, {{{', '.join(f'{k}: {v}' for k, v in alts.items())}}}, default=Unsigned[4](9))")
+    elif how == 'stdselect':
+        L.append(f"            self.q <<= std.select[Unsigned[4]]({subj}, {{{', '.join(f'{k}: {v}' for k, v in alts.items())}}}, default=Unsigned[4](9))")
+    else:
+        L.append(f"            match {subj}:")
+        for k, v in alts.items():
+            L += [f"                case {k}:", f"                    self.q <<= {v}"]
+        L += ["                case _:", "                    self.q <<= 9"]
+    src = '\n'.join(L) + '\n'
+    mod = load_source(src, 'c06a')
+    try:
+        try:
+            comp = compile_top(getattr(mod, cname))
+        except Rejected as r:
+            cnt['arrsel_rejected'] += 1
+            cnt['arrsel_rejected:' + r.etype + ':' + r.msg[:40].replace('\n', ' ')] += 1
+            return result(cnt=dict(cnt))
+        cnt['array_element_selectors'] += 1
+        viol = vcheck_text(comp.text, cnt, f"array element selector {subj} ({ET}) in {how} / {ctx}")
+        for v in viol:
+            v['source'] = src
+        return result(sig=digest(comp.text) if not viol else None, viol=viol, cnt=dict(cnt))
+    finally:
+        unload(mod)
+
+
 def run_case(case):
     k = case['k']
+    if k == 'arrsel':
+        return run_arrsel(case)
     if k == 'naming':
         return run_naming(case)
     if k in ('pair', 'unary', 'rand'):
